@@ -213,7 +213,7 @@ def _cms_target(ctx, d, case):
     pool = d.pool
 
     def snap():
-        s = [bytes(o), o.elements_added, o.width, o.depth, o.query_type]
+        s = [bytes(o), o.elements_added, o.width, o.depth, o.query_type, o.confidence, o.error_rate, str(o)]
         if d.cls == "hh":
             s.append(dict(o.heavy_hitters))
         if d.cls == "st":
@@ -257,7 +257,7 @@ def _cms_target(ctx, d, case):
         return f
 
     def view(x):
-        v = [bytes(x), x.elements_added, x.width, x.depth, x.query_type, [x.check(k) for k in pool]]
+        v = [bytes(x), x.elements_added, x.width, x.depth, x.query_type, [x.check(k) for k in pool], x.confidence, x.error_rate, str(x)]
         if d.cls == "hh":
             v.append(dict(x.heavy_hitters))
         if d.cls == "st":
